@@ -80,6 +80,17 @@ def mutant_refuted(mr, base):
     return False
 
 
+def mutant_status(mr, base):
+    """refuted | survived (every obligation discharged: the contract is too weak) | inconclusive (undecided / timeout / n-a)"""
+    if mr.get("error"):
+        return "inconclusive"
+    if mutant_refuted(mr, base):
+        return "refuted"
+    if all(o["status"] == "discharged" or (base or {}).get("obligations", {}).get(c, {}).get("status") == o["status"] for c, o in mr.get("obligations", {}).items()) and mr.get("obligations"):
+        return "survived"
+    return "inconclusive"
+
+
 def summarize(res):
     """obligation id -> verdict; id = contract/clause/structure"""
     out = {}
